@@ -40,6 +40,8 @@ def enumerate_synth(ctx, two_records=True):
     else:
         plan = [(v, range(1, 3 * (v - 8) + 31)) for v in small_vrls()]
         plan += [(v, window_lengths(v - 8)) for v in range(162, 16385, 2)]
+    # records of hundreds to thousands of segments (small record lengths keep them cheap)
+    plan += [(v, [k * (v - 8) + d for k in (300, 1000, 1500) for d in (0, 5)]) for v in (20, 32, 64)]
     for vrl, lengths in plan:
         for L in lengths:
             idx += 1
@@ -58,9 +60,9 @@ def exhaustive_scope(tier):
     if tier == 'quick':
         return ("every (vrl, L) with vrl even in 20..160 and L in 1..3*(vrl-8)+30; plus 64 larger vrl "
                 "(8192, 16382, 16384, 162, 256, 1024 and seed-dependent ones) x L in 1..40 and k*(vrl-8)+d, "
-                "k<=3, |d|<=14")
+                "k<=3, |d|<=14; plus records of 300 / 1000 / 1500 segments at vrl 20, 32, 64")
     return ("every (vrl, L) with vrl even in 20..160 and L in 1..3*(vrl-8)+30; plus EVERY even vrl in 162..16384 "
-            "x L in 1..40 and k*(vrl-8)+d, k<=3, |d|<=14")
+            "x L in 1..40 and k*(vrl-8)+d, k<=3, |d|<=14; plus records of 300 / 1000 / 1500 segments at vrl 20, 32, 64")
 
 
 @st.composite
@@ -74,7 +76,10 @@ def synth_cases(draw, min_vrl=20):
     recs = []
     for _ in range(n):
         mode = draw(st.integers(0, 5))
-        if mode == 0:
+        if cap <= 56 and draw(st.integers(0, 40)) == 0:
+            mode = 9
+            L = draw(st.integers(100, 1600)) * cap + draw(st.integers(-14, 14))
+        elif mode == 0:
             L = draw(st.integers(1, 40))
         elif mode in (1, 2):
             k = draw(st.integers(1, 5))
@@ -83,6 +88,7 @@ def synth_cases(draw, min_vrl=20):
             L = draw(st.integers(1, max(1, cap)))
         else:
             L = draw(st.integers(1, max(2, min(6 * cap, 60000))))
+        L = max(1, L)
         rec = {'e': draw(st.integers(0, 1)), 't': draw(st.integers(0, 255)), 'L': L,
                'a': draw(st.integers(0, 127)) * 2 + 1, 'b': draw(st.integers(0, 255))}
         if draw(st.integers(0, 3)) == 0:
